@@ -12,6 +12,8 @@
      votes   timestamps of the precommits in its commit vote list for the tip (a multiset, written
              as a sorted sequence); every vote is a valid signature of a distinct validator
      ts      its timestamp
+     st      what its header says about the state after the parent: "ok", or a wrong result hash, a wrong
+             next-validators hash or a wrong logs bloom (found when the parent's transactions have been executed)
    n validators vote; a list of k votes is a certificate iff 3k > 2n (QuorumCert.tla). Time is
    abstract (small integers); the replay driver scales it. *)
 EXTENDS Integers, Sequences, FiniteSets, TLC
@@ -37,7 +39,7 @@ Median(s) == LET l == Len(s) IN
              ELSE (s[l \div 2] + s[l \div 2 + 1]) \div 2
 
 Blocks == [dh : {-1, 0, 1}, prev : {"tip", "stale", "unknown"}, ver : {"ok", "old", "new"},
-           votes : VoteLists, ts : Times]
+           votes : VoteLists, ts : Times, st : {"ok", "result", "validators", "bloom"}]
 
 VARIABLES tip,      \* [height, ts] of the last finalized block
           cands,    \* accepted children of the tip: set of [id, ts]; id = index of the accepting step
@@ -56,6 +58,7 @@ ImportRes(t, b) ==
   ELSE IF ~CertOK(t, b.votes) THEN "votes"
   ELSE IF t.height >= 1 /\ b.ts # Median(b.votes) THEN "median"
   ELSE IF t.height >= 1 /\ b.ts <= t.ts THEN "nonincreasing"
+  ELSE IF b.st # "ok" THEN "state"
   ELSE "ok"
 
 Init == tip = Genesis /\ cands = {} /\ grown = 0 /\ hist = <<>>
@@ -90,13 +93,14 @@ Accepted == Stepped /\ Last.op = "import" /\ Last.res = "ok"
 \* timestamps and strictly greater than the parent's
 AcceptedExtendsParent ==
   [][Accepted => LET b == Last.b IN
-        /\ b.dh = 0 /\ b.prev = "tip" /\ b.ver = "ok" /\ CertOK(tip, b.votes)
+        /\ b.dh = 0 /\ b.prev = "tip" /\ b.ver = "ok" /\ b.st = "ok" /\ CertOK(tip, b.votes)
         /\ (tip.height + 1 > 1) => (b.ts = Median(b.votes) /\ b.ts > tip.ts)]_vars
 \* any single-field deviation from an acceptable block is rejected (timestamps: above height 1)
 Deviations(b) ==
   {[b EXCEPT !.dh = d] : d \in {-1, 0, 1} \ {b.dh}} \cup
   {[b EXCEPT !.prev = p] : p \in {"stale", "unknown"}} \cup
-  {[b EXCEPT !.ver = v] : v \in {"old", "new"}}
+  {[b EXCEPT !.ver = v] : v \in {"old", "new"}} \cup
+  {[b EXCEPT !.st = x] : x \in {"result", "validators", "bloom"}}
 TsDeviations(b) == {[b EXCEPT !.ts = t] : t \in Times \ {b.ts}}
 SingleDeviationRejected ==
   [][Accepted => /\ \A d \in Deviations(Last.b) : ImportRes(tip, d) # "ok"
